@@ -63,6 +63,7 @@ type modelState struct {
 	extraVars      []*smt.Term
 	civilSeq       int
 	splitCalendar  bool
+	nondetMapOrder bool // verifrt.NondetMapOrder: ranges over maps take an arbitrary one of two orders
 	exactFloat     bool
 	fpSh           map[int]fpShadow
 	fpShB          *smt.Builder
@@ -87,6 +88,7 @@ func (ex *Exec) modelReset() {
 	ex.civilSeq = 0
 	ex.splitCalendar = false
 	ex.exactFloat = false
+	ex.nondetMapOrder = false
 	ex.ymdMemo = nil
 	ex.usMemo = nil
 	ex.syncMaps = nil
